@@ -62,6 +62,10 @@ class Recorder:
         raise InternalError(f"no recorded draw labelled {label}; have {[l for l, _ in self.draws]}")
 
 
+class GridMismatch(Exception):
+    pass
+
+
 GENERATORS = ["brownian", "geometric_brownian", "vasicek", "cir", "heston", "merton_jump", "kou_jump", "local_volatility", "rough_bergomi"]
 
 
@@ -96,39 +100,97 @@ def gen_params(g, name):
     return p
 
 
-def run_generator(torch, name, p, dtype=None):
-    """run the real generator recording its draws; returns (outputs dict name->tensor (N,n), per-path model requests)"""
+INSTRUMENTS = {"geometric_brownian": "BrownianStock", "heston": "HestonStock", "cir": "CIRRate", "vasicek": "VasicekRate",
+               "merton_jump": "MertonJumpStock", "kou_jump": "KouJumpStock", "rough_bergomi": "RoughBergomiStock",
+               "local_volatility": "LocalVolatilityStock"}
+
+
+def run_instrument(torch, name, p, rec, dtype):
+    """the primary instrument named after generator `name`, constructed with the parameters `p`, simulated over the horizon
+    (n-1) dt from the initial state of `p`; returns the buffers.  Checks the parameter plumbing instrument -> generator."""
+    import pfhedge.instruments as I
+    N, n, dt = p["N"], p["n"], p["dt"]
+    hor = (n - 1) * dt
+    if name == "geometric_brownian":
+        inst = I.BrownianStock(sigma=p["sigma"], mu=p["mu"], dt=dt, dtype=dtype)
+        seed = 12345 + n * 7 + N
+        torch.manual_seed(seed)
+        inst.simulate(n_paths=N, time_horizon=hor, init_state=(p["init"],))
+        torch.manual_seed(seed)      # BrownianStock has no engine argument: regenerate the normals it drew
+        rec.draws.append(("engine", torch.randn(N, inst.spot.size(1), dtype=dtype)))
+        return inst, {"spot": inst.spot}
+    if name == "vasicek":
+        inst = I.VasicekRate(kappa=p["kappa"], theta=p["theta"], sigma=p["sigma"], dt=dt, dtype=dtype)
+        inst.simulate(n_paths=N, time_horizon=hor, init_state=(p["init"],))
+        return inst, {"spot": inst.spot}
+    if name == "cir":
+        inst = I.CIRRate(kappa=p["kappa"], theta=p["theta"], sigma=p["sigma"], dt=dt, dtype=dtype)
+        inst.simulate(n_paths=N, time_horizon=hor, init_state=(p["init"],))
+        return inst, {"spot": inst.spot}
+    if name == "heston":
+        inst = I.HestonStock(kappa=p["kappa"], theta=p["theta"], sigma=p["sigma"], rho=p["rho"], dt=dt, dtype=dtype)
+        inst.simulate(n_paths=N, time_horizon=hor, init_state=(p["s0"], p["v0"]))
+        return inst, {"spot": inst.spot, "variance": inst.variance}
+    if name == "merton_jump":
+        inst = I.MertonJumpStock(mu=p["mu"], sigma=p["sigma"], jump_per_year=p["lam"], jump_mean=p["jm"], jump_std=p["js"], dt=dt, dtype=dtype,
+                                 engine=rec.engine)
+        inst.simulate(n_paths=N, time_horizon=hor, init_state=(p["init"],))
+        return inst, {"spot": inst.spot}
+    if name == "kou_jump":
+        inst = I.KouJumpStock(sigma=p["sigma"], mu=p["mu"], jump_per_year=p["lam"], jump_mean_up=p["mean_up"], jump_mean_down=p["mean_down"],
+                              jump_up_prob=p["p_up"], dt=dt, dtype=dtype, engine=rec.engine)
+        inst.simulate(n_paths=N, time_horizon=hor, init_state=(p["init"],))
+        return inst, {"spot": inst.spot}
+    if name == "local_volatility":
+        a, b, c = p["a"], p["b"], p["c"]
+        inst = I.LocalVolatilityStock(lambda t, s: a + b * s + c * t, dt=dt, dtype=dtype)
+        inst.simulate(n_paths=N, time_horizon=hor, init_state=(p["init"],))
+        return inst, {"spot": inst.spot, "volatility": inst.volatility}
+    inst = I.RoughBergomiStock(alpha=p["alpha"], rho=p["rho"], eta=p["eta"], xi=p["xi"], dt=dt, dtype=dtype)
+    inst.simulate(n_paths=N, time_horizon=hor, init_state=(p["s0"], p["v0"]))
+    return inst, {"spot": inst.spot, "variance": inst.variance}
+
+
+def run_generator(torch, name, p, dtype=None, via="generator"):
+    """run the real generator (or, with via="instrument", the primary instrument built on it) recording its draws;
+    returns (outputs dict name->tensor (N,n), per-path model requests, recorder)"""
     import pfhedge.stochastic as S
     dtype = dtype or torch.float64
     N, n, dt = p["N"], p["n"], p["dt"]
     rec = Recorder(torch)
     fb = float_bits
-    with rec:
-        if name == "brownian":
-            out = {"spot": S.generate_brownian(N, n, init_state=(p["init"],), sigma=p["sigma"], mu=p["mu"], dt=dt, dtype=dtype, engine=rec.engine)}
-        elif name == "geometric_brownian":
-            out = {"spot": S.generate_geometric_brownian(N, n, init_state=(p["init"],), sigma=p["sigma"], mu=p["mu"], dt=dt, dtype=dtype, engine=rec.engine)}
-        elif name == "vasicek":
-            out = {"spot": S.generate_vasicek(N, n, init_state=(p["init"],), kappa=p["kappa"], theta=p["theta"], sigma=p["sigma"], dt=dt, dtype=dtype)}
-        elif name == "cir":
-            out = {"spot": S.generate_cir(N, n, init_state=(p["init"],), kappa=p["kappa"], theta=p["theta"], sigma=p["sigma"], dt=dt, dtype=dtype)}
-        elif name == "heston":
-            o = S.generate_heston(N, n, init_state=(p["s0"], p["v0"]), kappa=p["kappa"], theta=p["theta"], sigma=p["sigma"], rho=p["rho"], dt=dt, dtype=dtype)
-            out = {"spot": o.spot, "variance": o.variance}
-        elif name == "merton_jump":
-            out = {"spot": S.generate_merton_jump(N, n, init_state=(p["init"],), mu=p["mu"], sigma=p["sigma"], jump_per_year=p["lam"],
-                                                  jump_mean=p["jm"], jump_std=p["js"], dt=dt, dtype=dtype, engine=rec.engine)}
-        elif name == "kou_jump":
-            out = {"spot": S.generate_kou_jump(N, n, init_state=(p["init"],), sigma=p["sigma"], mu=p["mu"], jump_per_year=p["lam"],
-                                               jump_mean_up=p["mean_up"], jump_mean_down=p["mean_down"], jump_up_prob=p["p_up"], dt=dt,
-                                               dtype=dtype, engine=rec.engine)}
-        elif name == "local_volatility":
-            a, b, c = p["a"], p["b"], p["c"]
-            o = S.generate_local_volatility_process(N, n, lambda t, s: a + b * s + c * t, init_state=(p["init"],), dt=dt, dtype=dtype)
-            out = {"spot": o.spot, "volatility": o.volatility}
-        else:
-            o = S.generate_rough_bergomi(N, n, init_state=(p["s0"], p["v0"]), alpha=p["alpha"], rho=p["rho"], eta=p["eta"], xi=p["xi"], dt=dt, dtype=dtype)
-            out = {"spot": o.spot, "variance": o.variance}
+    if via == "instrument":
+        with rec:
+            inst, out = run_instrument(torch, name, p, rec, dtype)
+        if any(tuple(t.shape) != (N, n) for t in out.values()):
+            raise GridMismatch({k: list(t.shape) for k, t in out.items()})
+    else:
+      with rec:
+          if name == "brownian":
+              out = {"spot": S.generate_brownian(N, n, init_state=(p["init"],), sigma=p["sigma"], mu=p["mu"], dt=dt, dtype=dtype, engine=rec.engine)}
+          elif name == "geometric_brownian":
+              out = {"spot": S.generate_geometric_brownian(N, n, init_state=(p["init"],), sigma=p["sigma"], mu=p["mu"], dt=dt, dtype=dtype, engine=rec.engine)}
+          elif name == "vasicek":
+              out = {"spot": S.generate_vasicek(N, n, init_state=(p["init"],), kappa=p["kappa"], theta=p["theta"], sigma=p["sigma"], dt=dt, dtype=dtype)}
+          elif name == "cir":
+              out = {"spot": S.generate_cir(N, n, init_state=(p["init"],), kappa=p["kappa"], theta=p["theta"], sigma=p["sigma"], dt=dt, dtype=dtype)}
+          elif name == "heston":
+              o = S.generate_heston(N, n, init_state=(p["s0"], p["v0"]), kappa=p["kappa"], theta=p["theta"], sigma=p["sigma"], rho=p["rho"], dt=dt, dtype=dtype)
+              out = {"spot": o.spot, "variance": o.variance}
+          elif name == "merton_jump":
+              out = {"spot": S.generate_merton_jump(N, n, init_state=(p["init"],), mu=p["mu"], sigma=p["sigma"], jump_per_year=p["lam"],
+                                                    jump_mean=p["jm"], jump_std=p["js"], dt=dt, dtype=dtype, engine=rec.engine)}
+          elif name == "kou_jump":
+              out = {"spot": S.generate_kou_jump(N, n, init_state=(p["init"],), sigma=p["sigma"], mu=p["mu"], jump_per_year=p["lam"],
+                                                 jump_mean_up=p["mean_up"], jump_mean_down=p["mean_down"], jump_up_prob=p["p_up"], dt=dt,
+                                                 dtype=dtype, engine=rec.engine)}
+          elif name == "local_volatility":
+              a, b, c = p["a"], p["b"], p["c"]
+              o = S.generate_local_volatility_process(N, n, lambda t, s: a + b * s + c * t, init_state=(p["init"],), dt=dt, dtype=dtype)
+              out = {"spot": o.spot, "volatility": o.volatility}
+          else:
+              o = S.generate_rough_bergomi(N, n, init_state=(p["s0"], p["v0"]), alpha=p["alpha"], rho=p["rho"], eta=p["eta"], xi=p["xi"], dt=dt, dtype=dtype)
+              out = {"spot": o.spot, "variance": o.variance}
     eps = float(torch.finfo(dtype).tiny)
     reqs = []
 
